@@ -139,7 +139,7 @@ static void item (long it, void *arg)
 
 /* long symbols and many operands: the regime of cache-blocked loops, wide unrolling and small counters.
  * item = index into LONGS (sizes) or, beyond, into MANY (operand counts) */
-static int LONGS[96], NLONGS, MANY[64], NMANY;
+static int LONGS[320], NLONGS, MANY[64], NMANY;
 static void item_long (long it, void *arg)
 {
 	static const int AL[][2] = {{0, 0}, {1, 0}, {0, 1}, {3, 5}, {7, 7}, {4, 4}, {0, 4}, {6, 2}};
@@ -199,7 +199,8 @@ int main (int argc, char **argv)
 	{	/* long sizes: powers of two and neighbours up to 64 KiB, and a few in between */
 		static const int base[] = {96, 100, 127, 128, 129, 191, 192, 193, 255, 383, 384, 385, 500, 1000, 1500, 3000, 5000, 10000, 70001};
 		int e, d;
-		for (a = 0; a < (int) (sizeof base / sizeof base[0]); a++) LONGS[NLONGS++] = base[a];
+		if (!g_thorough) for (a = 81; a <= 255; a++) LONGS[NLONGS++] = a;	/* quick tier: the sizes the complete grid leaves to the thorough tier, on the reduced alignment / count / constant sets */
+		for (a = 0; a < (int) (sizeof base / sizeof base[0]); a++) if (g_thorough || base[a] > 255 || base[a] < 81) LONGS[NLONGS++] = base[a];
 		for (e = 9; e <= 16; e++) for (d = -1; d <= 1; d++) if (g_thorough || e <= 13 || e == 16) LONGS[NLONGS++] = (1 << e) + d;
 		if (g_thorough) { LONGS[NLONGS++] = 131071; LONGS[NLONGS++] = 131072; LONGS[NLONGS++] = 131073; LONGS[NLONGS++] = 1 << 20; }
 		for (a = 21; a <= 40; a++) MANY[NMANY++] = a;
